@@ -73,6 +73,9 @@ class Bip32KholawEd25519KeyDerivator(Bip32KholawEd25519KeyDerivatorBase):
         # Discard child if multiple of curve order
         if prvl_int % curve.Order() == 0:
             raise Bip32KeyError("Computed child key is not valid, very unlucky index")
+        # Discard child if it does not fit the key length (only possible if the parent key is out of range)
+        if IntegerUtils.GetBytesNumber(prvl_int) > Ed25519KholawPrivateKey.Length() // 2:
+            raise Bip32KeyError("Computed child key is not valid, the parent key is out of range")
 
         return IntegerUtils.ToBytes(prvl_int,
                                     bytes_num=Ed25519KholawPrivateKey.Length() // 2,
